@@ -178,6 +178,29 @@ fn lib_diff<S: State + 'static>(base: S, c: &Case, replicas: u64, steps: u64, kt
     st.sample(|| json!({"case": c, "replicas": replicas, "modes": 7, "runs_with_overlap": overlapping_runs}));
 }
 
+/// Something else of the same kind runs first on this thread (a different shape with the same
+/// name): the reference computed afterwards must not be influenced by it.
+fn run_decoy(group: &str, shape: &ShapeSpec, lj: bool) {
+    let decoy = match shape {
+        ShapeSpec::Polygon { sides } => ShapeSpec::Polygon { sides: if *sides == 3 { 8 } else { sides - 1 } },
+        ShapeSpec::Trimer { radius, angle, distance } => ShapeSpec::Trimer { radius: (radius * 0.7).max(0.2), angle: if *angle > 100. { angle - 55. } else { angle + 55. }, distance: distance * 1.4 },
+        other => other.clone(),
+    };
+    if let Ok(wg) = lib_group(group) {
+        let mut b = BuildOptimiser::default();
+        b.steps(40).inner_steps(20).kt_start(0.1).kt_ratio(Some(0.)).max_step_size(0.05).seed(12345);
+        if lj {
+            if let Some(Ok(s)) = decoy.lj().map(|s| PotentialState::from_group(s, &wg)) {
+                let _ = b.build().optimise_state(s).score();
+            }
+        } else if let Some(Ok(s)) = decoy.line().map(|s| PackedState::from_group(s, &wg)) {
+            let _ = b.build().optimise_state(s).score();
+        } else if let Some(Ok(s)) = decoy.mol().map(|s| PackedState::from_group(s, &wg)) {
+            let _ = b.build().optimise_state(s).score();
+        }
+    }
+}
+
 pub fn check_lib(c: &Case, st: &mut Stats) {
     if let Case::Lib { group, shape, lj, replicas, steps, kt, max_step, jitter } = c {
         let wg = match lib_group(group) {
@@ -187,6 +210,7 @@ pub fn check_lib(c: &Case, st: &mut Stats) {
                 return;
             }
         };
+        run_decoy(group, shape, *lj);
         if *lj {
             if let Some(s) = shape.lj() {
                 if let Ok(s0) = PotentialState::from_group(s, &wg) {
@@ -289,11 +313,11 @@ pub fn cli_cases(n: usize) -> Vec<Case> {
 pub fn run(ctx: &Ctx) {
     ctx.set_rule("library: clones of one state (all groups, hard and LJ) are optimised with seeds 0..R sequentially (reference, twice, second pass in reverse order) and then concurrently on rayon pools of 1,2,3,5,8,16 threads and on raw threads, each clone wrapped in a Spy that sleeps/yields inside score() on a seeded schedule; every result's JSON must equal the reference byte for byte; the original is re-serialised continuously by a watcher thread during the runs and compared before/after. CLI: the real binary for 8 argvs under RAYON_NUM_THREADS in {1,2,3,5,8,16} x jitter seeds (hook-injected 0-2 ms delays at stage starts) x repeats: .json, .svg and logged score byte-identical; the hook log gives the replica->thread map and completion order of each run (distinct schedules are counted; fewer than 4 makes the run inconclusive). Thorough tier adds ThreadSanitizer, Miri and memcheck legs (reports = violations). Non-trivial = library cases in which replicas overlapped in time, argvs for which >= 2 distinct schedules were observed");
     ctx.assume("schedules are sampled, not enumerated; absence of sanitizer reports says nothing about paths not driven");
-    let n_lib = ctx.tier.pick(1u64, 12u64);
+    let n_lib = ctx.tier.pick(2u64, 16u64);
     par_shards(ctx, 9, 16, |_, rng, st| {
         for _ in 0..n_lib {
             let lj = rng.gen_bool(0.4);
-            let shape = if lj { ShapeSpec::Trimer { radius: 0.637556, angle: 120., distance: 1. } } else { libx::gen::hard_shape(rng) };
+            let shape = if lj { libx::gen::trimer(rng) } else { libx::gen::hard_shape(rng) };
             let c = Case::Lib {
                 group: groups::NAMES[rng.gen_range(0, 7)].to_string(),
                 shape,
